@@ -264,6 +264,13 @@ func (s *Service) Process(ctx context.Context, msg interface{}, ctl *core.Contro
 		Render(os.Stderr, "processed", processed)
 	}
 
+	if err != nil {
+		// The write failed, so the crew is where it was: this
+		// processing didn't happen, and what it emitted must
+		// not have effects either.
+		return processed, err
+	}
+
 	// Recursively (and asynchronously) process the emitted
 	// msgs.
 	for _, walked := range processed {
